@@ -647,6 +647,12 @@ def install(reg):
         otherwise unknown (a subclass may have it)"""
         obj, name = args
         if isinstance(obj, VRef) and isinstance(name, VStr) and name.lit is not None and obj.cls is not None:
+            if name.lit in getattr(ex.reg, 'absent_as_none', ()):
+                # an attribute that exists only on some objects, declared as an optional field whose None stands for "absent"
+                # (the same reading getattr(obj, name, default) uses)
+                ty = ex.reg.field_type(obj.cls, name.lit)
+                if ty is not None and ty[0] == 'opt':
+                    return [(st, VBool(z3.Not(ex.read_field(st, obj, name.lit, ty).is_none())))]
             if ex.reg.field_type(obj.cls, name.lit) is not None or ex.find_method(obj.cls, name.lit) is not None:
                 return [(st, VBool(True))]
             for ci in ex.mro_infos(obj.cls):
